@@ -16,20 +16,21 @@
 EXTENDS SqliteEngine
 VARIABLES l,        \* next trace line
           diskOK,   \* ghost: the binlog files held a prefix of what was appended, including all that was fsynced
-          cleanOK   \* ghost: after a clean Close the database holds the whole binlog
+          cleanOK,  \* ghost: after a clean Close the database holds the whole binlog
+          pend      \* <<>> or <<record>>: Append entered (AppendB logged), its return not logged yet
 Trace == ndJsonDeserialize("trace.ndjson")
 ASSUME TLCSet(7, 0)
 
-tvars == <<vars, l, diskOK, cleanOK>>
+tvars == <<vars, l, diskOK, cleanOK, pend>>
 E == Trace[l]
 IsEvent(e) == l <= Len(Trace) /\ Trace[l].ev = e /\ l' = l + 1
-Quiet == UNCHANGED <<diskOK, cleanOK>>
+Quiet == UNCHANGED <<diskOK, cleanOK, pend>>
 
 Mem0 == /\ up' = "down" /\ lock' = 0 /\ waitQ' = <<>>
         /\ dbOffset' = 0 /\ cinfo' = 0
         /\ rst' = "none" /\ queue' = <<>> /\ qOff' = 0 /\ rpos' = 0 /\ rcommit' = 0
 
-TrInit == /\ Init /\ l = 1 /\ diskOK = TRUE /\ cleanOK = TRUE
+TrInit == /\ Init /\ l = 1 /\ diskOK = TRUE /\ cleanOK = TRUE /\ pend = <<>>
 
 TrReset == /\ IsEvent("Reset")
            /\ blog' = <<>> /\ written' = 0 /\ synced' = 0
@@ -38,14 +39,22 @@ TrReset == /\ IsEvent("Reset")
            /\ cl' = [w \in Writes |-> "new"]
            /\ acked' = {} /\ failedW' = {} /\ seen' = [r \in Readers |-> <<>>] /\ readRet' = {}
            /\ nreads' = 0 /\ crashes' = 0 /\ closes' = 0 /\ durable' = <<>>
-           /\ diskOK' = TRUE /\ cleanOK' = TRUE
+           /\ diskOK' = TRUE /\ cleanOK' = TRUE /\ pend' = <<>>
            /\ hist' = hist
 
 \* what a dead (killed or cleanly closed) process left on disk
 TrDisk == /\ IsEvent("Disk")
           /\ LET recs == E.recs
                  n == Len(recs)
-             IN /\ diskOK' = (blog = <<>> \/ (n >= synced /\ n <= Len(blog) /\ recs = Prefix(blog, n)))
+                 \* the event of an Append that was entered but whose return was not logged may be
+                 \* in the file, followed by a record of the binlog's own
+                 app == blog \o pend
+             IN /\ diskOK' = \/ blog = <<>>
+                             \/ /\ n >= synced
+                                /\ \/ n <= Len(app) /\ recs = Prefix(app, n)
+                                   \/ /\ pend # <<>> /\ n = Len(app) + 1
+                                      /\ Prefix(recs, n - 1) = app /\ recs[n].id = 0
+                /\ pend' = <<>>
                 /\ blog' = recs /\ written' = n /\ synced' = Min(synced, n)
                 /\ durable' = recs
                 /\ dbC' = [app |-> E.dbrows, off |-> E.dboff]
@@ -98,9 +107,17 @@ TrBlCommit ==
   /\ Quiet
 
 \* just before the COMMIT statement
+\* (the commit-now Do's own COMMIT is taken as observed -- whether its wait-queue entry was
+\* released before is for DbNotAheadOfSync to judge, not for a guard)
 TrTxBeforeCommit ==
   /\ IsEvent("TxBeforeCommit")
-  /\ IF lock # 0 THEN DoNowFinishCore(lock) ELSE TxCommitEffect
+  /\ IF lock # 0
+       THEN /\ dbC' = tx /\ lock' = 0
+            /\ cl' = [cl EXCEPT ![lock] = "done"]
+            /\ waitQ' = SelectSeq(waitQ, LAMBDA x : x.w # lock)
+            /\ UNCHANGED <<blog, written, synced, cinfo, tx, dbOffset, up, rst, queue, qOff, rpos, rcommit,
+                           acked, failedW, seen, readRet, nreads, crashes, closes, durable>>
+       ELSE TxCommitEffect
   /\ hist' = hist /\ Quiet
 
 TrQueueApplied ==
@@ -141,7 +158,13 @@ TrAppendA ==
         /\ IF Dur = "wait" THEN DoWriteBase(E.w, E.sz, svc)
            ELSE IF E.asap THEN DoNowBeginBase(E.w, E.sz, svc) ELSE DoWriteLazyBase(E.w, E.sz, svc)
   /\ dbOffset' = E.next
-  /\ UNCHANGED <<acked, hist>> /\ Quiet
+  /\ pend' = <<>>
+  /\ UNCHANGED <<acked, hist, diskOK, cleanOK>>
+
+\* Append entered (under the connection lock): from now on the event may reach the file
+TrAppendB == /\ IsEvent("AppendB")
+             /\ pend' = << Rec(E.w, E.sz, E.off) >>
+             /\ UNCHANGED <<vars, diskOK, cleanOK>>
 
 \* Do returned to its caller: the acknowledgement
 TrRet == /\ IsEvent("Ret")
@@ -164,14 +187,14 @@ TrView == /\ IsEvent("View")
 
 \* informative events and kill points without an abstract effect of their own
 Silent == {"TxAfterBegin", "TxAfterCommit", "SavepointEnd", "SkipDone", "ApplyDone", "ApplyQueued",
-           "CommitStored", "CommitNotified", "BlCommitDone", "DoOffsetUpdated", "DoQueued", "AppendB",
-           "BlRun", "Kill", "End", "CloseBegin", "Closed"}
+           "CommitStored", "CommitNotified", "BlCommitDone", "DoOffsetUpdated", "DoQueued",
+           "BlRun", "Kill", "End", "CloseBegin", "Closed", "Torn"}
 TrSilent == /\ l <= Len(Trace) /\ Trace[l].ev \in Silent /\ l' = l + 1
             /\ UNCHANGED vars /\ Quiet
 
 TrNext == \/ TrReset \/ TrDisk \/ TrOpen \/ TrRSkip \/ TrRApply \/ TrBlCommit \/ TrTxBeforeCommit
           \/ TrQueueApplied \/ TrChangeRole \/ TrLoadTx("Up") \/ TrLoadTx("Read") \/ TrExec \/ TrAppendA
-          \/ TrRet \/ TrReadRet \/ TrView \/ TrSilent
+          \/ TrAppendB \/ TrRet \/ TrReadRet \/ TrView \/ TrSilent
 TraceSpec == TrInit /\ [][TrNext]_tvars
 
 DiskBinlogSound == diskOK
@@ -180,7 +203,7 @@ CleanCloseComplete == cleanOK
 HighWater == TLCSet(7, IF l > TLCGet(7) THEN l ELSE TLCGet(7))
 TraceAccepted == IF TLCGet(7) = Len(Trace) + 1 THEN TRUE
                  ELSE PrintT(<<"TRACE_REJECTED_AT_LINE", TLCGet(7)>>) /\ FALSE
-TraceView == <<View, l, diskOK, cleanOK>>
+TraceView == <<View, l, diskOK, cleanOK, pend>>
 TrWrites == 1..400
 TrReaders == {0, 1}
 TrNone == {}
